@@ -470,7 +470,9 @@ macro_rules! c13_type {
                         let cb = <$CT>::BITS;
                         let csigned = <$CT>::MIN != 0;
                         let mut counts: Vec<$CT> = vec![0, 1, 2, 3, 7];
-                        for c in [BITS as i128 - 1, BITS as i128, BITS as i128 + 1, 2 * BITS as i128, 8, 15, 16, 31, 32, 33, 63, 64, 65, 127, 128, 255, -1, -(BITS as i128), <$CT>::MIN as i128, <$CT>::MAX as i128] {
+                        for c in [BITS as i128 - 1, BITS as i128, BITS as i128 + 1, 2 * BITS as i128, 8, 15, 16, 31, 32, 33, 63, 64, 65, 127, 128, 255, -1, -(BITS as i128), <$CT>::MIN as i128, <$CT>::MAX as i128,
+                            // counts that look small once narrowed to 8 / 16 / 32 bits
+                            256 + 3, 65536 + 3, (1i128 << 32) + 3, (1i128 << 32) + BITS as i128, 1i128 << 63, (1i128 << 63) + 1, -(1i128 << 32) + 3] {
                             if c >= <$CT>::MIN as i128 && c <= <$CT>::MAX as i128 {
                                 counts.push(c as $CT);
                             }
